@@ -1,11 +1,13 @@
 #!/bin/bash
-# tools/tryseed.sh <patch.diff> <property-id> [tier]  : apply a seeded change to /repo, run the check, undo.
+# tools/tryseed.sh <patch.diff> <property-id> [tier]  : run a check against a scratch worktree of /repo that carries a
+# seeded change (GOSYM_REPO), writing evidence/replays to a scratch directory (GOSYM_OUT). /repo itself and the
+# committed evidence are not touched; the worktree is removed afterwards.
 set -u
 patch="$1"; id="$2"; tier="${3:-quick}"
-cd /repo || exit 2
-if [ -n "$(git status --porcelain)" ]; then echo "/repo not clean"; exit 2; fi
-git apply "$patch" || { echo "patch does not apply"; exit 2; }
-cd /verif && ./check "$id" "$tier" > /tmp/tryseed.$id.out 2>&1; rc=$?
-git -C /repo checkout -- . ; git -C /repo clean -fdq -- . 2>/dev/null
+wt=$(mktemp -d /tmp/seedrun.XXXXXX); out=$(mktemp -d /tmp/seedout.XXXXXX)
+git -C /repo worktree add -q --detach "$wt/repo" HEAD || exit 2
+if ! git -C "$wt/repo" apply "$patch"; then echo "patch does not apply"; git -C /repo worktree remove --force "$wt/repo"; rm -rf "$wt" "$out"; exit 2; fi
+cd /verif && GOSYM_REPO="$wt/repo" GOSYM_OUT="$out" ./check "$id" "$tier" > /tmp/tryseed.$id.out 2>&1; rc=$?
+git -C /repo worktree remove --force "$wt/repo"; rm -rf "$wt" "$out"
 echo "exit=$rc"; grep -E "^(VIOLATION|KNOWN-FINDING|SUMMARY)" /tmp/tryseed.$id.out | cut -c1-300
 grep -c "^INCONCLUSIVE" /tmp/tryseed.$id.out
